@@ -182,7 +182,7 @@ class Parameter(ABC):
         values = type(self.values)(
             self.values.value, self.values.min_value, self.values.max_value
         )
-        return type(self)(self.device, self.description, values)
+        return type(self)(self.device, self.description, values, self._index)
 
     async def set(self, value: Any, retries: int = 5, timeout: float = 5.0) -> bool:
         """Set a parameter value."""
